@@ -33,6 +33,10 @@ fs: f'{a}-{s}'
 xr: !xref b.d
 pth: !path [x, y]
 imp: !import math.pi
+fwd: !xref later.inner
+snap: !eval "later"
+cnt: !eval "len(later)"
+later: {inner: [1], k: 3, m: {z: 0}}
 '''
 
 MUTATIONS = ['a', 'b.c', 'b.d.append', 'b.d[1].e', 'b.del', 'call.append', 'ml.append', 'xr.append', 'emp.new', 'b._u.v']
@@ -138,7 +142,7 @@ def c11_plain(split, mut, reps, dp, d, pp, p):
         return False
     types_ok = (type(cfg['a']) is int and type(cfg['b']['c']) is float and cfg['n'] is None and type(cfg['s']) is str
                 and type(cfg['b']['d']) is list and cfg['ev'] == 2 and cfg['ml'] == [1, 2] and cfg['fs'] == '1-q s'
-                and cfg['xr'] is cfg['b']['d'] and cfg.b is cfg['b'] and cfg.b.d is cfg['b']['d'] and isinstance(cfg['emp'], dict))
+                and cfg['xr'] is cfg['b']['d'] and cfg['snap'] is cfg['later'] and cfg['cnt'] == 3 and cfg['fwd'] is cfg['later']['inner'] and cfg.b is cfg['b'] and cfg.b.d is cfg['b']['d'] and isinstance(cfg['emp'], dict))
     if not types_ok:
         note(types='unexpected value/type', got=repr(dict(cfg))[:600])
         return False
